@@ -22,7 +22,6 @@ fn case_json(cat: &Catalog, sql: &str, rendered: &str) -> serde_json::Value {
 }
 
 pub fn check_case(which: Which, cat: &Catalog, sql: &str, feats: &[&'static str], rep: &mut Report) {
-    let pid = if which == Which::C07 { "C07" } else { "C14" };
     let relations = cat.relations();
     let rel = match compile(sql, &relations) {
         Compiled::Ok(r) => r,
@@ -35,6 +34,42 @@ pub fn check_case(which: Which, cat: &Catalog, sql: &str, feats: &[&'static str]
             return;
         }
     };
+    check_relation(which, cat, &rel, sql, feats, rep)
+}
+
+/// Relations made with the public builders rather than read from SQL: literal lists (Values) with
+/// repeated elements, on their own and joined with a table
+fn built_relation(r: &mut Rng, cat: &Catalog) -> Option<(Relation, String)> {
+    use qrlew::builder::{Ready, With, WithIterator};
+    use qrlew::expr::Expr;
+    let n = 2 + r.usize(5);
+    let pool = [1i64, 2, 3, 5, 8];
+    let vals: Vec<i64> = (0..n).map(|_| *r.pick(&pool)).collect();
+    let values: Relation = Relation::values().name("vals").values(vals.iter().map(|v| qrlew::data_type::value::Value::integer(*v)).collect::<Vec<_>>()).build();
+    let describe = format!("Values{:?}", vals);
+    if r.chance(1, 3) {
+        return Some((values, describe));
+    }
+    // t JOIN vals ON t.<int column> = vals.vals, projected on the columns of t
+    let t = r.pick(&cat.tables);
+    let col = t.cols.iter().find(|c| c.is_numeric() && !c.optional())?;
+    let table = t.relation();
+    let join: Relation = Relation::join()
+        .inner(Expr::eq(Expr::qcol(qrlew::relation::Join::left_name(), col.name.as_str()), Expr::qcol(qrlew::relation::Join::right_name(), "vals")))
+        .left(table)
+        .right(values)
+        .build();
+    let nleft = t.cols.len();
+    let proj: Relation = Relation::map()
+        .with_iter(join.schema().iter().take(nleft).zip(t.cols.iter()).map(|(f, c)| (c.name.clone(), Expr::col(f.name()))).collect::<Vec<_>>())
+        .input(join)
+        .build();
+    Some((proj, format!("{} JOIN {} ON {}.{} = vals", t.name, describe, t.name, col.name)))
+}
+
+pub fn check_relation(which: Which, cat: &Catalog, rel: &Relation, sql: &str, feats: &[&'static str], rep: &mut Report) {
+    let pid = if which == Which::C07 { "C07" } else { "C14" };
+    let rel = rel.clone();
     let rendered = match render(&rel) {
         Ok(s) => s,
         Err(_) => {
@@ -236,6 +271,11 @@ pub fn run(p: &Params, which: Which) -> Report {
                     rep.notes.push(e);
                 }
                 return;
+            }
+            if r.chance(1, 8) {
+                if let Ok(Some((rel, describe))) = guarded(|| built_relation(&mut r, &cat)) {
+                    check_relation(which, &cat, &rel, &describe, &["built_with_values"], rep);
+                }
             }
             for k in 0..4 {
                 let (sql, feats) = match (k, which) {
